@@ -150,6 +150,42 @@ def rule_table_disjoint(ctx, rep):
         raise AnalysisError("table-driven rewrite tables not found")
 
 
+def rule_scan_all(ctx, rep, rule_id="R-SCAN-ALL-ELEMENTS"):
+    """Shared by C07 / C18: a presence test that only ever looks at the first element re-applies the edit on the next run."""
+    from ..inline import _always_exits
+
+    rep.rule(
+        rule_id,
+        "in the classes of registered codemods (transformers, their helper visitors and mixins), a `for` loop that decides something "
+        "per element (its body branches) can reach its next iteration: a body that returns or raises on every path examines only the "
+        "first element, so e.g. an 'is the key already there?' scan answers for the first key only and the codemod adds it again",
+        min_instances=50,
+    )
+    classes = set(ctx.registry.transformer_classes().keys())
+    if len(classes) < 50:
+        raise AnalysisError("registry model lists fewer than 50 transformer classes")
+    closure = set()
+    for cq in classes:
+        closure |= set(m for m in ctx.prog.mro(cq) if m in ctx.prog.classes)
+    # helper visitors living in the same modules
+    mods = {ctx.prog.classes[c].module.name for c in closure}
+    closure |= {c.qname for c in ctx.prog.classes.values() if c.module.name in mods}
+    n = 0
+    for cq in sorted(closure):
+        for m in ctx.prog.classes[cq].methods.values():
+            for lp in walk_no_nested(m.node):
+                if not isinstance(lp, (ast.For, ast.AsyncFor)):
+                    continue
+                branches = any(isinstance(x, (ast.If, ast.Match, ast.IfExp)) for st in lp.body for x in ast.walk(st))
+                if not branches:
+                    continue  # `for x in xs: return x` (first element on purpose) decides nothing per element
+                n += 1
+                rep.check(rule_id, m.qname, m.loc(lp), not _always_exits(lp.body), f"for {unparse(lp.target)[:20]} in {unparse(lp.iter)[:30]}",
+                          f"every path through the body of `for {unparse(lp.target)} in {unparse(lp.iter)[:40]}` leaves the function: only the first element is ever examined")
+    if n < 50:
+        raise AnalysisError(f"only {n} deciding loops found in codemod classes")
+
+
 def check(ctx, rep):
     rep.explanation = (
         "The 22 codemods with a semgrep rule of their own are described twice in the repository: as a rule (YAML) and as a libcst "
@@ -158,6 +194,7 @@ def check(ctx, rep):
     )
     fixed_image(ctx, rep)
     rule_table_disjoint(ctx, rep)
+    rule_scan_all(ctx, rep)
     from .c03 import rule_empty_diff
 
     rule_empty_diff(ctx, rep)
